@@ -4,9 +4,11 @@ package props
 
 import (
 	"encoding/base64"
+	"encoding/json"
 	"fmt"
 	"strings"
 	"testing"
+	"unicode/utf8"
 
 	"go.flow.arcalot.io/engine/internal/verif/vcase"
 	"go.flow.arcalot.io/engine/internal/verif/vrun"
@@ -23,6 +25,61 @@ type ParseCase struct {
 	// ExpectParse: "ok" | "error" | "" (unknown) — what the file-tree rule demands of Parse.
 	ExpectParse string `json:"expect_parse,omitempty"`
 	NonTrivial  bool   `json:"non_trivial"`
+}
+
+// parseCaseJSON is the wire form: texts that are not valid UTF-8 travel base64-encoded so that a
+// saved case replays byte for byte.
+type parseCaseJSON struct {
+	parseCaseAlias
+	FilesB64 map[string]string `json:"files_b64,omitempty"`
+	InputB64 string            `json:"input_b64,omitempty"`
+}
+type parseCaseAlias ParseCase
+
+func (c ParseCase) MarshalJSON() ([]byte, error) {
+	w := parseCaseJSON{parseCaseAlias: parseCaseAlias(c)}
+	w.Files = map[string]string{}
+	for k, v := range c.Files {
+		if utf8.ValidString(v) {
+			w.Files[k] = v
+		} else {
+			if w.FilesB64 == nil {
+				w.FilesB64 = map[string]string{}
+			}
+			w.FilesB64[k] = base64.StdEncoding.EncodeToString([]byte(v))
+		}
+	}
+	if !utf8.ValidString(c.Input) {
+		w.Input = ""
+		w.InputB64 = base64.StdEncoding.EncodeToString([]byte(c.Input))
+	}
+	return json.Marshal(w)
+}
+
+func (c *ParseCase) UnmarshalJSON(b []byte) error {
+	var w parseCaseJSON
+	if err := json.Unmarshal(b, &w); err != nil {
+		return err
+	}
+	*c = ParseCase(w.parseCaseAlias)
+	if c.Files == nil {
+		c.Files = map[string]string{}
+	}
+	for k, v := range w.FilesB64 {
+		raw, err := base64.StdEncoding.DecodeString(v)
+		if err != nil {
+			return err
+		}
+		c.Files[k] = string(raw)
+	}
+	if w.InputB64 != "" {
+		raw, err := base64.StdEncoding.DecodeString(w.InputB64)
+		if err != nil {
+			return err
+		}
+		c.Input = string(raw)
+	}
+	return nil
 }
 
 func (c *ParseCase) request() *vrun.EngineRequest {
